@@ -25,6 +25,9 @@ pub fn alphabet(core: bool) -> Vec<(&'static str, Call)> {
     trunc.extend_from_slice(b"ab"); // has 2
     let full: Vec<(&'static str, Call)> = vec![
         ("set_comment", Call::SetComment(b"c".to_vec())),
+        // one byte more than the end record can describe: finish() must refuse it, and a caller who then sets a
+        // shorter comment and finishes again must get exactly the entries created so far
+        ("set_comment-65536", Call::SetComment(vec![b'k'; 65536])),
         ("write-empty", Call::Write(vec![])),
         ("write-xyz", Call::Write(b"xyz".to_vec())),
         ("write-valid-record", Call::Write(rec(0xbeef, b"hi"))),
